@@ -800,7 +800,7 @@ impl World {
         Ok(Some(bytes))
     }
 
-    fn do_commit(&mut self, p: usize, g: usize, spec: &CommitSpec) -> VResult<bool> {
+    pub fn do_commit(&mut self, p: usize, g: usize, spec: &CommitSpec) -> VResult<bool> {
         if !self.live(p, g) || self.parties[p].mems[g].pending.is_some() {
             return Ok(false);
         }
@@ -1101,7 +1101,7 @@ impl World {
         Ok(())
     }
 
-    fn do_propose(&mut self, p: usize, g: usize, spec: &PropSpec) -> VResult<bool> {
+    pub fn do_propose(&mut self, p: usize, g: usize, spec: &PropSpec) -> VResult<bool> {
         if !self.live(p, g) {
             return Ok(false);
         }
